@@ -260,9 +260,27 @@ def _decorate(fn, post, snap, label, top_only=False):
     return wrapper
 
 
-def attach(owner, name, post, snap=None, label=None, top_only=False):
-    """decorate owner.__dict__[name] in place; returns True when attached"""
+def _all_subclasses(cls):
+    out, todo = [], list(cls.__subclasses__())
+    while todo:
+        c = todo.pop()
+        if c not in out:
+            out.append(c)
+            todo.extend(c.__subclasses__())
+    return out
+
+
+def attach(owner, name, post, snap=None, label=None, top_only=False, family=True):
+    """decorate owner.__dict__[name] in place; returns True when attached.
+    family: an override of `name` in any (loaded) subclass would bypass the contract, so it is decorated too
+    (same label, so nesting through super() is recognised)."""
     label = label or f"{getattr(owner, '__name__', owner)}.{name}"
+    if family and isinstance(owner, type):
+        for sub in _all_subclasses(owner):
+            if name in sub.__dict__ and not any(o is sub and n == name for o, n, _ in _ATTACHED):
+                attach(sub, name, post, snap, label, top_only, family=False)
+                if CTX is not None:
+                    CTX.count("attached-override:" + sub.__name__ + "." + name)
     raw = owner.__dict__.get(name) if hasattr(owner, "__dict__") else None
     if raw is None:
         raw = getattr(owner, name, None)
